@@ -133,7 +133,9 @@ func main() {
 		}
 		if cfg.FileOps {
 			f.Comments = nil
-			if !rw.insertFileOps(f) {
+			hooked := rw.insertFileOps(f)
+			swapped := rw.swapImports(f, cfg)
+			if !hooked && !swapped {
 				continue
 			}
 		} else if cfg.OnlyImports {
